@@ -39,8 +39,8 @@ package local
 //@   modifies smap(&c.flowControls)
 //@   ensures [ret] result
 
-// loadFlowControls is proved against its body (sync.Map model); that the interface assertion on the stored value cannot
-// panic is not among its obligations (the engine has no implements-relation between tags and interfaces yet).
+// loadFlowControls is proved against its body (sync.Map model), including that the interface assertion on the stored
+// value cannot panic (the stored kinds implement GlobalFlowControl: go/types' implements-relation, stated per boxed type).
 //@ func (*upstreamCondition).loadFlowControls props C16
 //@   requires [recv] c != nil
 //@   requires [typed] smhas(&c.flowControls, box(name)) ==> smget(&c.flowControls, box(name)) != nil && (typeis(smget(&c.flowControls, box(name)), "*flowcontrol.globalMaxInflight") || typeis(smget(&c.flowControls, box(name)), "*flowcontrol.globalTokenBucket"))
